@@ -39,6 +39,15 @@ def _parities(sym):
     return {"even": Poly.const(2) * m, "odd": Poly.const(2) * m + Poly.const(1)}
 
 
+def _step_defs(sx, fi, names):
+    """Execute the top-level assignments of fi that define (possibly by tuple assignment) one of `names`."""
+    for s in fi.node.body:
+        if isinstance(s, ast.Assign):
+            tg = [n.id for t in s.targets for n in ast.walk(t) if isinstance(n, ast.Name)]
+            if tg and all(t in names for t in tg):
+                sx.step(s)
+
+
 def irfft_calls(repo, fi):
     out = []
     for c in find(fi.node, ast.Call):
@@ -66,14 +75,15 @@ def d1_irfft(ctx):
                 # padded length of both rfft inputs equals n
                 ev = Evaluator(facts=_facts(), resolve=lambda e: repo.resolve_expr(fi, e))
                 sx = SymExec(ev, on_undecided="havoc")
-                for s in fi.node.body:
-                    if isinstance(s, ast.Assign) and loc_name(s.targets[0]) in ("nsx", "nsw", "ns"):
-                        sx.step(s)
+                _step_defs(sx, fi, ("nsx", "nsw", "ns"))
                 nv = ev.ev(n)
                 for r in [x for x in find(c, ast.Call) if call_name(x) == "rfft"]:
                     a = expand_name(du, r.args[0], c)
                     ln = None
-                    if isinstance(a, ast.Call) and call_name(a) == "concatenate":
+                    n_r = kwarg(r, "n") or (r.args[1] if len(r.args) > 1 else None)
+                    if n_r is not None:
+                        ln = ev.ev(n_r)   # rfft(x, n) zero-pads (or truncates) its input to n samples (model)
+                    elif isinstance(a, ast.Call) and call_name(a) == "concatenate":
                         parts = a.args[0].elts
                         tot = Poly.const(0)
                         for p in parts:
@@ -96,6 +106,8 @@ def d1_irfft(ctx):
                 for cc in find(fi.node, ast.Call):
                     if call_name(cc) == "ns_optim_fft":
                         arg = ev.ev(cc.args[0])
+                        if "nsx" not in ev.env or "nsw" not in ev.env:
+                            raise AnalysisError("convolve: operand lengths nsx / nsw not found")
                         d = (arg - (ev.env["nsx"] + ev.env["nsw"] - Poly.const(1))).const_value()
                         ctx.check(d is not None and d >= 0, fi, cc, cc, "padded length >= nsx + nsw - 1 (linear, not circular, convolution)",
                                   f"padded length is the fast size of {arg}: shorter than nsx + nsw - 1, the convolution wraps around", key="nowrap")
@@ -121,7 +133,9 @@ def d2_same_crop(ctx):
         ev = Evaluator(env={"nsw": nsw}, facts=_facts(), resolve=lambda e: repo.resolve_expr(fi, e))
         ev.hints = ("nonneg",)
         try:
-            f, l = ev.ev(fd[0].value), ev.ev(ld[0].value)
+            f = ev.ev(fd[0].value)
+            ev.env["first"] = f   # `last` may be written in terms of `first`
+            l = ev.ev(ld[0].value)
         except Undecided as e:
             raise AnalysisError(f"convolve: crop bound not evaluable: {e}")
         want_first = m - Poly.const(1) if par == "even" else m
@@ -156,6 +170,27 @@ def d2_same_crop(ctx):
             okp = ev.ev(el[-1].upper) == Poly.sym("nsx") + Poly.sym("nsw")
     ctx.check(okp, fi, rm[0] if rm else fi.node, rm[0] if rm else "xw[..., :nsx+nsw]", "padding is cut back to nsx + nsw samples before cropping", "padding removal does not keep nsx + nsw samples (the crop bounds assume it)",
               key="unpad")
+    # ... and the transform is long enough for that slice to really deliver nsx + nsw samples: ns = ns_optim_fft(arg) >= arg (model), so arg >= bound is
+    # needed; with arg = bound - 1 the buffer is one sample short whenever bound - 1 is itself of the form 2^a 3^b
+    du = DefUse(fi.node)
+    for s in rm:
+        sl = s.value.slice
+        el = sl.elts if isinstance(sl, ast.Tuple) else [sl]
+        if not (isinstance(el[-1], ast.Slice) and el[-1].lower is None and el[-1].upper is not None):
+            continue
+        ev = Evaluator(facts=_facts(), resolve=lambda e: repo.resolve_expr(fi, e))
+        sx = SymExec(ev, on_undecided="havoc")
+        _step_defs(sx, fi, ("nsx", "nsw"))
+        bound = ev.ev(el[-1].upper)
+        opt = [c for c in find(fi.node, ast.Call) if call_name(c) == "ns_optim_fft"]
+        if not opt:
+            raise AnalysisError("convolve: ns_optim_fft call not found")
+        arg = ev.ev(opt[0].args[0])
+        d = (arg - bound).const_value()
+        ctx.check(d is not None and d >= 0, fi, s, f"xw[..., :{bound}] of a transform of ns_optim_fft({arg}) samples", "the transform is at least as long as the un-padding slice assumes",
+                  f"the un-padding slice keeps `{src(el[-1].upper)}` = {bound} samples but the transform has only ns_optim_fft({arg}) >= {arg} samples: when {arg} is itself a fast size "
+                  f"(2^a 3^b) the buffer is shorter than the slice assumes, 'full' comes back one sample short and the end-relative 'same' crop [first:-last] drops the last sample",
+                  key="unpad-fits")
 
 
 def d3_filters(ctx):
@@ -226,53 +261,93 @@ def d3_filters(ctx):
         ctx.check(okc, fc, r, f"_cos -> {s_[:120]}", "ramp is (1 - cos(pi * (x - b0)/(b1 - b0))) / 2", f"ramp normalises to {s_[:120]}", key="cos")
 
 
+def _len_eval(repo, fi, ns):
+    """Evaluator in which the length of the array argument along the working axis (x.shape[axis], x.shape[-1], siz[axis] before it is
+    overwritten) is the parity-split symbol `ns`."""
+    class ES(Evaluator):
+        def ev(self, e, _ns=ns):
+            if isinstance(e, ast.Subscript) and src(e) in ("siz[axis]", "x.shape[axis]", "x.shape[-1]", "list(x.shape)[axis]"):
+                return _ns
+            return super().ev(e)
+    ev = ES(env={"ns": ns}, facts=_facts(), resolve=lambda e: repo.resolve_expr(fi, e))
+    ev.hints = ("nonneg",)
+    return ev
+
+
+def _arange_count(repo, fi, du, ar: ast.Call, ns):
+    """(start, count) of np.arange(a, b) / np.arange(b) with names followed to their definitions; a bound that is a list cell overwritten in the
+    function (siz[axis] = ...) is replaced by the stored value."""
+    ev = _len_eval(repo, fi, ns)
+    a = ar.args[0] if len(ar.args) >= 2 else ast.Constant(value=0)
+    b = ar.args[1] if len(ar.args) >= 2 else ar.args[0]
+    if len(ar.args) > 2 or ar.keywords and any(k.arg == "step" for k in ar.keywords):
+        raise AnalysisError(f"{fi.qualname}: arange with a step")
+
+    def resolve(e):
+        e = expand_name(du, e, ar)
+        if isinstance(e, ast.Subscript) and loc_name(e.value) is not None and not isinstance(e.slice, ast.Constant):
+            st = [s_ for s_ in walk_function(fi.node) if isinstance(s_, ast.Assign) and isinstance(s_.targets[0], ast.Subscript) and src(s_.targets[0]) == src(e)]
+            if st:
+                return st[-1].value
+        return e
+    try:
+        av, bv = ev.ev(resolve(a)), ev.ev(resolve(b))
+    except Undecided as ex:
+        raise AnalysisError(f"{fi.qualname}: arange bounds not evaluable: {ex}")
+    return av, bv - av
+
+
 def d4_half_spectrum(ctx):
     ctx.rule("D4", "len(freduce(ns)) + len(mirror in fexpand) == ns; len(two-sided fscale) == ns; both parities")
     repo = ctx.repo
     fr = repo.fn(MOD + ".freduce")
     fx = repo.fn(MOD + ".fexpand")
     fs = repo.fn(MOD + ".fscale")
-    sz = [s for s in walk_function(fr.node) if isinstance(s, ast.Assign) and isinstance(s.targets[0], ast.Subscript) and loc_name(s.targets[0].value) == "siz"]
-    il = [s for s in walk_function(fx.node) if isinstance(s, ast.Assign) and loc_name(s.targets[0]) == "ilast"]
-    if not sz or not il:
-        raise AnchorMissing("freduce/fexpand: length expressions not found")
+    dur, dux, dus = DefUse(fr.node), DefUse(fx.node), DefUse(fs.node)
+
+    def take_arange(fi, du):
+        for c in find(fi.node, ast.Call):
+            if call_name(c) == "take" and len(c.args) >= 2:
+                idx = expand_name(du, c.args[1], c)
+                if isinstance(idx, ast.Call) and call_name(idx) == "arange":
+                    return c, idx
+        raise AnchorMissing(f"{fi.qualname}: np.take(x, np.arange(...)) not found")
+    tr, ar_r = take_arange(fr, dur)
+    tx, ar_x = take_arange(fx, dux)
     m = Poly.sym("m")
     for par, ns in _parities("ns").items():
-        class ES(Evaluator):
-            def ev(self, e, _ns=ns):
-                if isinstance(e, ast.Subscript) and src(e) == "siz[axis]":
-                    return _ns
-                return super().ev(e)
-        ev = ES(env={"ns": ns}, facts=_facts(), resolve=lambda e: repo.resolve_expr(fr, e))
-        ev.hints = ("nonneg",)
-        try:
-            red = ev.ev(sz[0].value)
-            ilast = ev.ev(il[0].value)
-        except Undecided as e:
-            raise AnalysisError(f"half-spectrum lengths not evaluable: {e}")
-        ctx.check(red == m + Poly.const(1), fr, sz[0], f"[{par}] len(freduce) = {red}", "positive-frequency half has floor(ns/2)+1 bins", f"[{par} ns] freduce keeps {red} bins, expected m + 1",
-                  key=f"freduce:{par}")
-        # mirror = take(arange(1, ilast))
-        tk = [c for c in find(fx.node, ast.Call) if call_name(c) == "arange"]
-        okm = bool(tk) and const_value(tk[0].args[0]) == (True, 1) and loc_name(tk[0].args[1]) == "ilast"
-        mirror = ilast - Poly.const(1)
-        ctx.check(okm and red + mirror == ns, fx, il[0], f"[{par}] {red} + {mirror} bins", "reduce followed by expand restores ns bins",
-                  f"[{par} ns] freduce keeps {red} bins and fexpand mirrors {mirror}: {red + mirror} != ns = {ns}", key=f"fexpand:{par}")
+        s0, red = _arange_count(repo, fr, dur, ar_r, ns)
+        ctx.check(s0 == Poly.const(0) and red == m + Poly.const(1), fr, tr, f"[{par}] freduce takes bins {s0} .. +{red}", "positive-frequency half has floor(ns/2)+1 bins starting at DC",
+                  f"[{par} ns] freduce keeps {red} bins from bin {s0}, expected m + 1 from bin 0", key=f"freduce:{par}")
+        s1, mirror = _arange_count(repo, fx, dux, ar_x, ns)
+        ctx.check(s1 == Poly.const(1) and red + mirror == ns, fx, tx, f"[{par}] {red} + {mirror} bins (mirror from bin {s1})", "reduce followed by expand restores ns bins (DC not mirrored)",
+                  f"[{par} ns] freduce keeps {red} bins and fexpand mirrors {mirror} bins from bin {s1}: {red + mirror} != ns = {ns} or DC is mirrored", key=f"fexpand:{par}")
     cj = [c for c in find(fx.node, ast.Call) if call_name(c) == "conj"]
-    fl = [c for c in find(fx.node, ast.Call) if call_name(c) == "flip"]
+    fl = [c for c in find(fx.node, ast.Call) if call_name(c) in ("flip", "flipud")]
     ctx.check(bool(cj) and bool(fl), fx, fx.node, "conj(flip(...))", "mirror is the reversed complex conjugate", "mirror is not conj(flip(.))", key="mirror")
-    # fscale two-sided
-    neg = [s for s in find(fs.node, ast.Call) if call_name(s) == "slice" and len(s.args) == 3]
-    fsc = [s for s in walk_function(fs.node) if isinstance(s, ast.Assign) and loc_name(s.targets[0]) == "fsc"]
-    if not neg or not fsc:
-        raise AnchorMissing("fscale: one-sided vector or mirrored slice not found")
+    # fscale two-sided: concatenate((fsc, -fsc[a:0:-1]))
+    fsc = [s_ for s_ in walk_function(fs.node) if isinstance(s_, ast.Assign) and loc_name(s_.targets[0]) == "fsc"]
+    if not fsc:
+        raise AnchorMissing("fscale: one-sided vector not found")
+    ars = [c for c in find(fsc[0].value, ast.Call) if call_name(c) == "arange"]
+    if not ars:
+        raise AnchorMissing("fscale: arange not found")
+    neg = None
+    for sb in find(fs.node, ast.Subscript):
+        if loc_name(sb.value) == "fsc":
+            sl = sb.slice
+            if isinstance(sl, ast.Call) and call_name(sl) == "slice" and len(sl.args) == 3:
+                neg = (sb, sl.args[0], sl.args[1], sl.args[2])
+            elif isinstance(sl, ast.Slice) and sl.lower is not None and sl.upper is not None and sl.step is not None:
+                neg = (sb, sl.lower, sl.upper, sl.step)
+    if neg is None:
+        raise AnchorMissing("fscale: mirrored slice of the one-sided vector not found")
     for par, ns in _parities("ns").items():
-        ev = Evaluator(env={"ns": ns}, facts=_facts(), resolve=lambda e: repo.resolve_expr(fs, e))
-        ar = [c for c in find(fsc[0].value, ast.Call) if call_name(c) == "arange"][0]
-        L = ev.ev(ar.args[1]) - ev.ev(ar.args[0])
-        start, stop, step = (ev.ev(a) for a in neg[0].args)
+        _, L = _arange_count(repo, fs, dus, ars[0], ns)
+        ev = _len_eval(repo, fs, ns)
+        start, stop, step = (ev.ev(a) for a in neg[1:])
         okstep = stop == Poly.const(0) and step == Poly.const(-1)
-        # slice(-k, 0, -1) on length L has L - k elements (k >= 1)
+        # fsc[-k:0:-1] on length L has L - k elements (k >= 1)
         k = -start
         kc = k.const_value()
         cnt = L - k
@@ -284,6 +359,7 @@ def d5_fscale(ctx):
     ctx.rule("D5", "fscale[k] == k / ns / si, k in arange(0, floor(ns/2)+1); ns_optim_fft uses left searchsorted on the sorted 2^a3^b table")
     repo = ctx.repo
     fs = repo.fn(MOD + ".fscale")
+    dus = DefUse(fs.node)
     fsc = [s for s in walk_function(fs.node) if isinstance(s, ast.Assign) and loc_name(s.targets[0]) == "fsc"]
     if not fsc:
         raise AnchorMissing("fscale: one-sided frequency vector not found")
@@ -296,16 +372,28 @@ def d5_fscale(ctx):
     p = E(facts=_facts()).ev(fsc[0].value)
     ctx.check(p == Poly.sym("K") * Poly.sym("ns").pow(-1) * Poly.sym("si").pow(-1), fs, fsc[0], f"fsc = {p}", "bin k has frequency k / (ns * si)", f"frequency of bin k is {p}", key="fscale")
     ar = [c for c in find(fsc[0].value, ast.Call) if call_name(c) == "arange"][0]
-    ok = const_value(ar.args[0]) == (True, 0) and norm(ar.args[1]) == norm(ast.parse("np.floor(ns / 2) + 1", mode="eval").body)
-    ctx.check(ok, fs, ar, ar, "k runs 0 .. floor(ns/2)", f"`{src(ar)}` is not arange(0, floor(ns/2)+1)", key="fscale-range")
+    ok = True
+    det = []
+    for par, ns in _parities("ns").items():
+        s0, cnt = _arange_count(repo, fs, dus, ar, ns)
+        ok = ok and s0 == Poly.const(0) and cnt == Poly.sym("m") + Poly.const(1)
+        det.append(f"[{par}] {s0} .. +{cnt}")
+    ctx.check(ok, fs, ar, ar, "k runs 0 .. floor(ns/2)", f"`{src(ar)}` is not arange(0, floor(ns/2)+1): {'; '.join(det)}", key="fscale-range")
     fo = repo.fn(MOD + ".ns_optim_fft")
     ss = [c for c in find(fo.node, ast.Call) if call_name(c) == "searchsorted"]
     side = kwarg(ss[0], "side") if ss else None
     oks = bool(ss) and (side is None or const_value(side) == (True, "left"))
     ctx.check(oks, fo, ss[0] if ss else fo.node, ss[0] if ss else "searchsorted", "first table entry >= ns is returned (an exact 2^a3^b size maps to itself)",
               "searchsorted(side='right') returns the next larger size for an exact 2^a 3^b length", key="searchsorted")
-    un = [c for c in find(fo.node, ast.Call) if call_name(c) in ("unique", "sort")]
-    ctx.check(bool(un), fo, fo.node, "np.unique(...)", "table is sorted ascending", "table is not sorted before the search", key="sorted")
+    if ss:
+        # the table searched and the table indexed are the same expression
+        duo = DefUse(fo.node)
+        tbl = expand_name(duo, ss[0].args[0], ss[0]) if ss[0].args else None
+        picked = [sb for sb in find(fo.node, ast.Subscript) if any(n is ss[0] for n in ast.walk(sb.slice))]
+        same = bool(picked) and tbl is not None and norm(expand_name(duo, picked[0].value, picked[0])) == norm(tbl)
+        ctx.check(same, fo, ss[0], ss[0], "the size is picked from the table that was searched", "the table searched and the table indexed differ", key="same-table")
+        srt = tbl is not None and isinstance(tbl, ast.Call) and call_name(tbl) in ("unique", "sort")
+        ctx.check(srt, fo, fo.node, "np.unique(...)", "table is sorted ascending", "table is not sorted before the search", key="sorted")
     bases = sorted({const_value(b.left)[1] for b in find(fo.node, ast.BinOp) if isinstance(b.op, ast.Pow) and const_value(b.left)[0]})
     ctx.check(bases == [2, 3], fo, fo.node, f"bases {bases}", "sizes are 2^a 3^b", f"sizes are built from {bases}", key="bases")
 
